@@ -98,10 +98,12 @@ let handle (cmd : string) (args : t list) : t option =
   match cmd, args with
   | "mut-skip", _ -> Some (L [A "skip"])
   | "delete", [d; cs] -> Some (final_sexp (delete_nodes (coords_of_sexp cs) (node_of_sexp d)))
+  | "delete", [d; cs; L mg] ->
+    Some (final_sexp (delete_nodes_mg (List.map (fun o -> n_of_int (int_atom o)) mg) (coords_of_sexp cs) (node_of_sexp d)))
   | "delete-spec", [d; cs] ->
     let d = node_of_sexp d in
     let ps = List.map (fun p -> (p.pc_parent, p.pc_ref)) (del_order (coords_of_sexp cs)) in
-    Some (L [bs (wf_docb d); bs (no_dup_no_disorder d ps); canon_doc (delete_spec d ps)])
+    Some (L [bs (wf_docb d); bs (no_dup_no_disorder d ps); bs (doc_ordered d (List.rev ps)); canon_doc (delete_spec d ps)])
   | "set", [d; cs; v; f; vo; lt; ft] ->
     let d = node_of_sexp d in
     Some (sfinal_sexp (set_value (lit_of_table (lit_table_of_sexp lt)) (fl_of_table ft)
@@ -114,4 +116,5 @@ let handle (cmd : string) (args : t list) : t option =
     Some (match create_query (lit_of_table (lit_table_of_sexp lt)) (segs_of_sexp sg) (pyval_of_sexp v) (opt_n vo) d with
         | ROk ((d', _), _) -> L [A "done"; canon_doc d']
         | RErr e -> L [A "failed"; family e; canon_doc d])
+  | "create-guard", [d; sg] -> Some (L [bs (creates (node_of_sexp d) (segs_of_sexp sg))])
   | _ -> None
